@@ -84,6 +84,8 @@ pub struct HistResult {
     pub latent: Vec<String>,
     /// (model state hash, snapshot hash) after the last op, before the end-of-history probes.
     pub end_key: (u64, u64),
+    /// Number of ops executed before the end-of-history probes started.
+    pub main_len: usize,
 }
 
 pub fn ops_hash(cfg_n: usize, cfg_cap: usize, ops: &[Op]) -> u64 {
@@ -368,6 +370,7 @@ impl Runner<'_> {
             }
         }
         let end_key = (s.m.state_hash(), snap_hash(&s.g.snapshot()));
+        let main_len = s.ops.len();
         // after a panic that is not this monitor's business the graph (and any twin that did not get
         // the interrupted call) is in no defined state: no end-of-history probes
         if violation.is_none() && st.foreign_panics == 0 {
@@ -385,7 +388,7 @@ impl Runner<'_> {
         let nontrivial = mon.nontrivial(&st);
         let ops = std::mem::take(&mut s.ops);
         let h = ops_hash(n, cap, &ops);
-        HistResult { stats: st, violation, ops, nontrivial, ops_hash: h, latent, end_key }
+        HistResult { stats: st, violation, ops, nontrivial, ops_hash: h, latent, end_key, main_len }
     }
 }
 
